@@ -353,7 +353,7 @@ def base_run():
 
         import atexit
 
-        d = tempfile.mkdtemp(prefix="c14base-", dir=os.environ.get("TMPDIR", "/tmp"))
+        d = tempfile.mkdtemp(prefix=f"c14base-{os.environ.get('VERIF_RUN_TAG', 'x')}-", dir=os.environ.get("TMPDIR", "/tmp"))
         atexit.register(shutil.rmtree, d, True)
         dev = drivers.tiny(2, terminals=True)
         dt = 2.0**-5
